@@ -273,7 +273,7 @@ def app_rows(V, tier, seed):
         kind = rng.choice(["usd_norate", "usd_norate", "usd_comm_norate", "usd_explicit", "cad_rate_1", "cad_rate_bad", "eur_norate", "eur_rate",
                            "usd_td_vs_sd", "usd_jan1", "fx_trade_cad_comm_norate", "fx_trade_cad_comm_rate1", "fx_trade_cad_comm_bad",
                            "fx_trade_eur_comm_norate", "fx_trade_eur_comm_rate", "usd_trade_usd_comm_own_rate",
-                           "usd_norate_then_eur_norate_same_day", "usd_norate_with_gbp_comm_norate"])
+                           "usd_norate_then_eur_norate_same_day", "usd_norate_with_gbp_comm_norate", "usdt_norate", "cadc_own_rate", "usdc_comm_norate"])
         td = datetime.date(y, rng.randint(1, 12), rng.randint(1, 28))
         if kind == "usd_jan1":
             td = datetime.date(y, 1, rng.choice([1, 2, 3]))
@@ -303,6 +303,20 @@ def app_rows(V, tier, seed):
             exp["error"] = True
         elif kind == "eur_norate":
             row["cur"] = "EUR"
+            exp["error"] = True
+        elif kind == "usdt_norate":
+            row["cur"] = rng.choice(["USDT", "USDC", "USDX", "CADC"])     # other currencies, whatever their first letters
+            exp["error"] = True
+        elif kind == "cadc_own_rate":
+            row["cur"] = rng.choice(["CADC", "USDT"])
+            row["fx"] = gen.rand_dec(rng, 0, 2, 4).replace("0.0000", "0.9800")
+            if Fraction(row["fx"]) == 0:
+                row["fx"] = "0.98"
+            exp["rate"] = Fraction(row["fx"])
+        elif kind == "usdc_comm_norate":
+            row["cur"] = "CAD"
+            row["comm"] = gen.rand_dec(rng, 1, 20, 2)
+            row["ccur"] = rng.choice(["USDT", "USDC"])
             exp["error"] = True
         elif kind == "usd_norate_then_eur_norate_same_day":
             # a USD row whose rate is looked up, then another currency without a rate on the same trade date
